@@ -366,7 +366,21 @@ class Interp:
         return out
 
     def e_JoinedStr(self, e):
-        return Val(tags={"kind": "str"}, term=("fstr",))
+        parts = []
+        out = Val(tags={"kind": "str", "isstr": True, "notnone": True}, term=("fstr",))
+        for v in e.values:
+            if isinstance(v, ast.Constant):
+                parts.append(v.value)
+            elif isinstance(v, ast.FormattedValue):
+                pv = self.ev(v.value)
+                parts.append(pv)
+                f = pv.flat()
+                out.data |= f.data
+                out.ctrl |= f.ctrl
+        out.tags["fstr_parts"] = parts
+        if all(isinstance(p, str) or (p.known and isinstance(p.const, str)) for p in parts):
+            out.const = "".join(p if isinstance(p, str) else p.const for p in parts)
+        return out
 
     def e_Lambda(self, e):
         return Val(tags={"lambda": e, "lambda_env": dict(self.fr.env)}, term=("lambda",))
@@ -789,6 +803,9 @@ class Interp:
         if fv.tag("repoclass"):
             self.emit("construct", e, cls=fv.tag("repoclass"), args=args, kws=kws)
             return self.opaque_call(e, args, kws)
+        if fv.tag("kind") == "ureg":
+            from .ext_models import ureg_unit
+            return ureg_unit(self, e, args, kws)
         if fv.tag("typeof") is not None and fv.tag("typeof").tag("kind") == "qmc":
             from .ext_models import m_qmc_engine
             return m_qmc_engine(self, e, args, kws)
@@ -823,7 +840,7 @@ class Interp:
                 return r
         depth = fr.depth + 1
         rec = sum(1 for q in fr.path if q == fn.qual)
-        if depth > MAX_DEPTH or rec >= 1:
+        if depth > MAX_DEPTH or rec >= self.ctx.opts.get("rec_limit", 1):
             self.ctx.note(f"call depth/recursion cut at {fn.qual}")
             r = self.opaque_call(e, args, kws)
             ev.d["result"] = r
@@ -1262,6 +1279,10 @@ class Interp:
                     nb.sign = v.sign if v.sign in ("NONNEG", "POS") else None
             else:
                 nb.sign = None
+            if v.tag("deg") is not None and (base.tag("zero_init") and base.tag("deg") is None or base.tag("deg") == v.tag("deg")):
+                nb.tags["deg"] = dict(v.tag("deg"))
+            elif base.tag("deg") is not None:
+                nb.tags.pop("deg", None)
             if v.tag("simplex_rows") and (base.tag("zero_init") or base.tag("simplex_rows")):
                 nb.tags["simplex_rows"] = True
                 nb.sign = "NONNEG"
